@@ -1124,11 +1124,11 @@ pub fn configs(scen: &str, tier: &str) -> Vec<Cfg> {
         }
         // C02: waits return the task's own outcome, whichever pool ran it
         "pool.c02" => {
-            v.push(all("one-pool", vec![(0, 2, 0)], 4, &["Return", "Panic", "PanicFmt", "Delay5"], &[0], d(2, 3), &["submit", "pass", "adv", "wait", "join", "stop"], d(5, 6)));
-            v.push(all("join-from-task", vec![(0, 1, 0)], 4, &["Return", "Panic", "JoinNext"], &[0], d(3, 4), &["submit", "pass"], d(5, 6)));
+            v.push(all("one-pool", vec![(0, 2, 0)], 4, &["Return", "Panic", "PanicFmt", "Delay5"], &[0], d(2, 3), &["submit", "pass", "adv", "wait", "join", "stop"], d(5, 7)));
+            v.push(all("join-from-task", vec![(0, 1, 0)], 4, &["Return", "Panic", "JoinNext"], &[0], d(3, 4), &["submit", "pass"], d(5, 7)));
             // a task joins with a SHORT timeout while its own wait loop runs a slow task; another worker finishes the target in time
-            v.push(all("short-join-from-task", vec![(0, 2, 0)], 4, &["Return", "Delay100", "JoinSkipShort"], &[0], d(3, 4), &["submit", "pass", "adv"], d(5, 6)));
-            v.push(all("two-pools", vec![(0, 2, 0), (0, 2, 0)], 1, &["Return", "Panic"], &[0], d(3, 3), &["submit", "pass", "wait", "join"], d(5, 6)));
+            v.push(all("short-join-from-task", vec![(0, 2, 0)], 4, &["Return", "Delay100", "JoinSkipShort"], &[0], d(3, 4), &["submit", "pass", "adv"], d(5, 7)));
+            v.push(all("two-pools", vec![(0, 2, 0), (0, 2, 0)], 1, &["Return", "Panic"], &[0], d(3, 3), &["submit", "pass", "wait", "join"], d(5, 7)));
         }
         // C05 (pool part): single worker, priorities
         "pool.c05" => {
@@ -1136,30 +1136,30 @@ pub fn configs(scen: &str, tier: &str) -> Vec<Cfg> {
         }
         // C11: worker count
         "pool.c11" => {
-            v.push(all("max1", vec![(0, 1, 0)], 4, &["Return", "Panic", "Suspend", "Delay5"], &[0], d(3, 3), &["submit", "pass", "adv", "cancel", "stop"], d(5, 6)));
-            v.push(all("max2", vec![(0, 2, 0)], 4, &["Return", "Suspend", "Delay5", "CancelPrev"], &[0], d(3, 3), &["submit", "pass", "adv", "cancel", "stop", "cobad"], d(5, 6)));
-            v.push(all("min1", vec![(1, 2, 0)], 4, &["Return", "Delay5", "Panic"], &[0], d(2, 3), &["submit", "cancel", "stop"], d(4, 5)));
-            v.push(all("keepalive", vec![(0, 2, 5 * MS)], 4, &["Return", "Suspend", "Delay5"], &[0], d(2, 3), &["submit", "pass", "adv", "cancel", "stop"], d(5, 6)));
+            v.push(all("max1", vec![(0, 1, 0)], 4, &["Return", "Panic", "Suspend", "Delay5"], &[0], d(3, 3), &["submit", "pass", "adv", "cancel", "stop"], d(5, 7)));
+            v.push(all("max2", vec![(0, 2, 0)], 4, &["Return", "Suspend", "Delay5", "CancelPrev"], &[0], d(3, 3), &["submit", "pass", "adv", "cancel", "stop", "cobad"], d(5, 7)));
+            v.push(all("min1", vec![(1, 2, 0)], 4, &["Return", "Delay5", "Panic"], &[0], d(2, 3), &["submit", "cancel", "stop"], d(4, 6)));
+            v.push(all("keepalive", vec![(0, 2, 5 * MS)], 4, &["Return", "Suspend", "Delay5"], &[0], d(2, 3), &["submit", "pass", "adv", "cancel", "stop"], d(5, 7)));
             // a keep-alive longer than any stop timeout: idle workers must still leave a stopping pool
-            v.push(all("keepalive-long", vec![(0, 2, 3000 * MS)], 4, &["Return", "Delay5"], &[0], d(2, 3), &["submit", "pass", "adv", "stop"], d(4, 5)));
+            v.push(all("keepalive-long", vec![(0, 2, 3000 * MS)], 4, &["Return", "Delay5"], &[0], d(2, 3), &["submit", "pass", "adv", "stop"], d(4, 6)));
             // plain coroutines handed in through submit_co count against the maximum too
-            v.push(all("direct-coroutines", vec![(0, 2, 0)], 4, &["Return", "Delay5"], &[0], d(2, 2), &["submit", "pass", "adv", "co", "stop"], d(5, 6)));
+            v.push(all("direct-coroutines", vec![(0, 2, 0)], 4, &["Return", "Delay5"], &[0], d(2, 2), &["submit", "pass", "adv", "co", "stop"], d(5, 7)));
         }
         // C12: lifecycle
         "pool.c12" => {
-            v.push(all("lifecycle", vec![(0, 1, 0)], 4, &["Return", "Delay5", "Delay5x2"], &[0], d(3, 3), &["submit", "pass", "adv", "wait", "cancel", "stop", "join"], d(5, 6)));
-            v.push(all("stopping-window", vec![(0, 2, 0)], 4, &["Return", "SubmitInside", "Delay100"], &[0], d(2, 3), &["submit", "pass", "adv", "stop"], d(4, 5)));
-            v.push(all("lifecycle-2", vec![(0, 2, 0)], 4, &["Return", "Suspend"], &[0], d(2, 3), &["submit", "pass", "wait", "stop", "join"], d(5, 6)));
+            v.push(all("lifecycle", vec![(0, 1, 0)], 4, &["Return", "Delay5", "Delay5x2"], &[0], d(3, 3), &["submit", "pass", "adv", "wait", "cancel", "stop", "join"], d(5, 7)));
+            v.push(all("stopping-window", vec![(0, 2, 0)], 4, &["Return", "SubmitInside", "Delay100"], &[0], d(2, 3), &["submit", "pass", "adv", "stop"], d(4, 6)));
+            v.push(all("lifecycle-2", vec![(0, 2, 0)], 4, &["Return", "Suspend"], &[0], d(2, 3), &["submit", "pass", "wait", "stop", "join"], d(5, 7)));
             // a task of one pool waits on the other pool, which may have been stopped meanwhile
-            v.push(all("wait-on-the-other-pool", vec![(0, 1, 0), (0, 1, 0)], 2, &["Return", "WaitOtherPool"], &[0], d(2, 2), &["submit", "pass", "stop"], d(4, 5)));
+            v.push(all("wait-on-the-other-pool", vec![(0, 1, 0), (0, 1, 0)], 2, &["Return", "WaitOtherPool"], &[0], d(2, 2), &["submit", "pass", "stop"], d(4, 6)));
         }
         // C13: cancel isolation
         "pool.c13" => {
-            v.push(all("max1", vec![(0, 1, 0)], 4, &["Return", "Delay5", "Suspend", "CancelSelf", "CancelPrev"], &[0], d(3, 3), &["submit", "pass", "adv", "cancel", "join"], d(5, 6)));
-            v.push(all("max2", vec![(0, 2, 0)], 4, &["Return", "Delay5", "Suspend", "CancelPrev"], &[0], d(3, 3), &["submit", "pass", "adv", "cancel", "join"], d(5, 6)));
-            v.push(all("disowned-results", vec![(0, 1, 0)], 4, &["Return", "Delay5"], &[0], d(2, 3), &["submit", "pass", "adv", "cancel", "clean"], d(5, 6)));
+            v.push(all("max1", vec![(0, 1, 0)], 4, &["Return", "Delay5", "Suspend", "CancelSelf", "CancelPrev"], &[0], d(3, 3), &["submit", "pass", "adv", "cancel", "join"], d(5, 7)));
+            v.push(all("max2", vec![(0, 2, 0)], 4, &["Return", "Delay5", "Suspend", "CancelPrev"], &[0], d(3, 3), &["submit", "pass", "adv", "cancel", "join"], d(5, 7)));
+            v.push(all("disowned-results", vec![(0, 1, 0)], 4, &["Return", "Delay5"], &[0], d(2, 3), &["submit", "pass", "adv", "cancel", "clean"], d(5, 7)));
             // two pools sharing the queue: a task accepted by one pool may be popped (and found cancelled) by the other
-            v.push(all("two-pools", vec![(0, 1, 0), (0, 1, 0)], 2, &["Return", "Delay5"], &[0], d(2, 3), &["submit", "pass", "cancel", "join"], d(5, 6)));
+            v.push(all("two-pools", vec![(0, 1, 0), (0, 1, 0)], 2, &["Return", "Delay5"], &[0], d(2, 3), &["submit", "pass", "cancel", "join"], d(5, 7)));
         }
         _ => {}
     }
